@@ -277,6 +277,9 @@ def run(ctx):
         "point_cases": cnt.get("point_cases", 0),
         "exhaustive": True,
     }
+    coverage["rule"] += ("; each call preceded by the same request in numbers of the other kind that compare equal "
+                         "(3 / 3.0, 2^53 + 2 / its float); points outside a bound by 0.85 .. 1.2 tolerances and "
+                         "PX_PER_INCH changed beforehand among the call forms")
     return {"part": part, "coverage": coverage,
             "assumptions": ["dyadic alphabet: bound +- tolerance is exact in floating point"]}
 
